@@ -10,6 +10,11 @@ The judge reads the implementation's observations only:
   `is_abs`) and by which dependent tasks, the and/or expression of every prerequisite;
 * `pool` — the prerequisite atoms (with their satisfied flags) of every pooled instance.
 
+Restart: Sched v1 has no restart op.  Cases of kind `cmdr` contain a stop command and a restart; the
+harness hands the model the op list up to the first command (correspondence on that prefix) and the
+judge the complete observation trace (`full_obs`), so "including instances spawned after a restart" is
+judged on the real scheduler although no theorem covers it.
+
 Property: from the observation in which an absolute output `a` is completed onwards, every pooled
 instance of every task depending on `a` has, in each prerequisite that mentions `a`, the atom satisfied
 (or that prerequisite satisfied as a whole).
@@ -132,7 +137,12 @@ def handle (i o : Json) : Except String Reply := do
   if !absWfB c.graph then
     return { model := modelObs c, holds := false,
              why := "graph: an absolute child belongs to a task without has_abs_triggers (hypothesis absWfB of the C45 theorems)" }
-  match judge c.graph o with
+  -- runs with a stop command and a restart: the model (Sched v1) covers the prefix before the first
+  -- command (`o`), the judge the whole trace of the implementation (`full_obs`)
+  let whole := match jField? i "full_obs" with
+    | some f => f
+    | none => o
+  match judge c.graph whole with
   | some w => return { model := modelObs c, holds := false, why := w }
   | none => return { model := modelObs c, holds := true }
 
